@@ -74,7 +74,7 @@ OpStep ==
                                 !.stuck = ~(lx.known /\ lx.ok),
                                 !.frames = @ + (IF lx.known /\ lx.op = B_FRAME THEN 1 ELSE 0),
                                 !.stops = @ + (IF lx.known /\ lx.ok /\ lx.op = B_STOP THEN 1 ELSE 0),
-                                !.broken = acc.broken \/ ~safe \/ ~(lx.known /\ lx.ok) \/ cls # ""]
+                                !.broken = acc.broken \/ ~safe \/ ~(lx.known /\ lx.ok) \/ cls \notin {"", "kind"}]
           /\ msgs' =
                (IF ~lx.known THEN <<V(i, "C04", "unknown opcode byte")>> ELSE <<>>)
             \o (IF lx.known /\ ~lx.ok THEN <<V(i, "C04", lx.why)>> ELSE <<>>)
